@@ -104,6 +104,16 @@ def run(ctx):
             f[3] = ("I", rng.choice([0, 1, 2**31 - 1, -1, rng.randint(0, 10**6)]))
             f[5] = ("I", f[5][1] + rng.choice([0, 1, 1000, 86400000]))
             wires.append(("E", f))
+        elif i % 6 == 3:
+            # (whole-second batches, i % 3 == 0: the write-back comparison below is exact for them)
+            # compaction removed the leading record(s): the batch keeps its base offset and base
+            # timestamp, so the first surviving record has non-zero deltas
+            f = list(w[1])
+            k = rng.choice([1, 2, 7, 1000])
+            f[0] = ("I", f[0][1] - k)                       # baseOffset below the first record's offset
+            f[3] = ("I", f[3][1] + k)                       # lastOffsetDelta relative to the old base
+            f[4] = ("I", f[4][1] - 1000 * rng.choice([0, 1, 60]))   # baseTimestamp (whole seconds earlier)
+            wires.append(("E", f))
     spec = driver.run_parallel(["specbatch " + values.render(w) for w in wires])
     cases = []      # (label, wire or None, bytes)
     for w, r in zip(wires, spec):
